@@ -45,6 +45,26 @@ class HarnessModelError(Exception):
         MODEL_ERROR_LOG.append(str(args[0])[:300] if args else "")
 
 
+def harness_side(e: BaseException) -> str:
+    """Non-empty when exception *e* (or a cause/context of it) is the harness's own model giving up:
+    a HarnessModelError, or an AttributeError on an object whose class is defined under /verif."""
+    seen = 0
+    cur: BaseException | None = e
+    while cur is not None and seen < 8:
+        if type(cur).__name__ == "HarnessModelError":
+            return f"HarnessModelError: {cur}"
+        if isinstance(cur, AttributeError):
+            obj = getattr(cur, "obj", None)
+            mod = getattr(type(obj), "__module__", "") if obj is not None else ""
+            if isinstance(obj, type):
+                mod = getattr(obj, "__module__", "")
+            if mod.split(".")[0] in ("harness", "engine"):
+                return f"harness fake lacks an attribute the code now uses: {cur}"
+        cur = cur.__cause__ or cur.__context__
+        seen += 1
+    return ""
+
+
 @dataclass
 class Item:
     name: str
